@@ -405,4 +405,81 @@ example : (writeObj true [⟨"a".toList, .write, 1⟩] ⟨[], []⟩ "a".toList [
 
 example : atomicRun (some "OLD") ["AB", "CD"] (some 2) = (true, { final := some "OLD", temp := none }) := by decide
 
+/-! ### Error values: a write failing inside a Walk callback is reported whatever it looks like -/
+
+/-- With the repaired walk (an error of the callback is returned as it is) every helper shape,
+    on a disk or memory source, reports a failing Put / Write / Close of the destination for
+    EVERY error value — ENOENT in a *PathError, io.EOF, filepath.SkipDir, context.Canceled,
+    wrapped or joined: nothing is mistaken for "the prefix does not exist" or "skip". -/
+theorem walk_copy_reports_every_error_value (disk : Bool) (h : WalkHelper) (p : Prim) (e : ErrV) :
+    (walkCopy .fixed disk h p e).isSome = true := by
+  unfold walkCopy diskWalkReturn
+  cases disk <;> rfl
+
+/-- A memory source never looked at the value (under any rule of the disk walk). -/
+theorem walk_copy_memory_reports (rule : WalkRule) (h : WalkHelper) (p : Prim) (e : ErrV) :
+    (walkCopy rule false h p e).isSome = true := rfl
+
+/-- AS CODED before the repair, the helpers of the tree (`WalkReadObjects`, export.go, `copyPath`)
+    still report every error value out of a disk source — but only because each of them happens
+    to wrap the callback's error in `errors.Join`, which `os.IsNotExist` and `==` cannot see
+    through. -/
+theorem as_coded_joining_helpers_report (h : WalkHelper) (hh : h ≠ .walkBare) (p : Prim) (e : ErrV) :
+    (walkCopy .asCoded true h p e).isSome = true := by
+  cases h <;> first | exact absurd rfl hh | (cases p <;> rfl)
+
+/-- … and a loop that returns the write error as it is loses it: a Put failing with a bare
+    `*fs.PathError{ENOENT}` (the destination path is a dangling symlink) makes the disk walk stop
+    and return nil.  `Walk`'s contract ("if f returns error, Walk will stop short and return this
+    error") is broken as coded; recorded finding `walk-callback-write-failure-not-reported`. -/
+theorem as_coded_bare_loop_swallows_not_exist_counterexample :
+    walkCopy .asCoded true .walkBare .put (.pathError .enoent) = none ∧
+    walkCopy .asCoded true .walkBare .put (.sentinel .skipDir) = none ∧
+    walkCopy .asCoded false .walkBare .put (.pathError .enoent) = some (.pathError .enoent) := by decide
+
+/-- The as-coded rule swallows exactly the values `os.IsNotExist` accepts and a bare SkipDir. -/
+theorem as_coded_swallows_iff (e : ErrV) :
+    diskWalkReturn .asCoded e = none ↔ (e = .sentinel .skipDir ∨ osIsNotExist e = true) := by
+  unfold diskWalkReturn
+  by_cases h1 : e = .sentinel .skipDir
+  · simp [h1]
+  · by_cases h2 : osIsNotExist e = true
+    · simp [h1, h2]
+    · simp [h1, h2]
+
+/-- Seed C15-m5 (`errors.Is(err, fs.ErrNotExist)` instead of `os.IsNotExist(err)`): now the
+    joins no longer protect — `WalkReadObjects` + `CopyReadObject` out of a disk source with a
+    Write failing with ENOENT returns nil. -/
+theorem errors_is_rule_swallows_wrapped_counterexample :
+    walkCopy .errorsIs true .wroCopyReadObject .write (.pathError .enoent) = none ∧
+    walkCopy .asCoded true .wroCopyReadObject .write (.pathError .enoent) ≠ none := by decide
+
+/-- `errors.Is` sees through every wrapper that `os.IsNotExist` does not: the two rules differ
+    exactly on wrapped / joined values. -/
+theorem osIsNotExist_implies_errorsIs (e : ErrV) (h : osIsNotExist e = true) : errorsIsNotExist e = true := by
+  cases e <;> simp_all [osIsNotExist, errorsIsNotExist]
+
+/-- A stale directory listing: the repaired walk visits every surviving entry … -/
+theorem fixed_walk_visits_every_survivor (l : List Bool) :
+    visitStale .fixed l = (l.filter (!·)).length := by
+  induction l with
+  | nil => rfl
+  | cons g rest ih =>
+    cases g
+    · simp [visitStale, ih]; omega
+    · simp [visitStale, ih]
+
+/-- … as coded it stops at the first vanished entry and reports success (recorded finding
+    `walk-truncated-by-vanished-entry`): here the temp file of a concurrent atomic Put is renamed
+    away before it is visited and the two objects behind it are never seen. -/
+theorem as_coded_walk_truncated_counterexample :
+    visitStale .asCoded [false, false, false, true, false, false] = 3 ∧
+    visitStale .fixed [false, false, false, true, false, false] = 5 := by decide
+
+-- non-vacuity
+example : walkCopy .fixed true .walkBare .put (.pathError .enoent) = some (.pathError .enoent) := by decide
+example : walkCopy .asCoded true .wroPutPath .close (.sentinel .eof) = some (.join1 (.join1 (.sentinel .eof))) := by decide
+example : errorsIsNotExist (.wrap (.join2 (.sentinel .eof) (.pathError .enoent))) = true ∧
+    osIsNotExist (.wrap (.join2 (.sentinel .eof) (.pathError .enoent))) = false := by decide
+
 end BufProofs.C15
